@@ -44,7 +44,7 @@ class Model:
     def _expr(self, node, path):
         k = node[0]
         mn, mx = M.occ(node)
-        if k in 'ehwt':
+        if k in 'ehwtr':
             self.leaf_syms[path] = frozenset(M.leaf_symbols(node, self.subst))
             self.leaf_kind[path] = 'w' if k == 'w' else 'e'
             self.leaf_node[path] = node
@@ -224,7 +224,7 @@ def in_language_ends(model, word):
     def once(node, i):
         """End positions of one occurrence of node's body starting at i."""
         k = node[0]
-        if k in 'ehwt':
+        if k in 'ehwtr':
             if i < n and word[i] in M.leaf_symbols(node, subst):
                 return {i + 1}
             return set()
